@@ -266,7 +266,7 @@ class C01(Prop):
     def gen_case(self, rng, tier):
         option = rng.choice(["label", "label", "position"])
         rank = rng.choice([0, 1, 1, 2, 2, 3, 3, 4])
-        arr = gen.rand_array(rng, rank=rank, maxn=4)
+        arr = gen.dtype_variants(rng, gen.rand_array(rng, rank=rank, maxn=4))
         axes = arr["axes"]
         want_pos = rng.random() < 0.3
         if want_pos:
